@@ -420,6 +420,20 @@ def register_vector_algebra(reg):
     _vec_contract(reg, "rotatedBy", dict(self=VT(), angleOrOrientation=OrientationT()), post_rot_orient, replay_rot_orient("rotatedBy"), key="[orientation]")
     _vec_contract(reg, "applyRotation", dict(self=VT(), rotation=OrientationT()), post_rot_orient, replay_rot_orient("applyRotation"))
 
+    # a rotation that is not an Orientation is outside the documented domain: the error must be RAISED
+    def post_apply_bad(I, env, res, check):
+        check("never_returns_anything_but_a_vector", is_vector(res))
+
+    def replay_apply_bad(inputs, clause):
+        a = _vec(inputs, "self")
+        r = a.applyRotation(_fl(inputs.get("rotation", 0.5)))
+        from scenic.core.vectors import Vector
+
+        if not isinstance(r, Vector):
+            return f"{a!r}.applyRotation(0.5) RETURNED {r!r} (an exception object) instead of raising it"
+
+    _vec_contract(reg, "applyRotation", dict(self=VT(), rotation=C.Real()), post_apply_bad, replay_apply_bad, key="[non-orientation]", raises=[C.Raises("TypeError", mode="may")])
+
     def post_off_rot(I, env, res, check):
         G.use(I.eng, "trig")
         a, t, o = co(env.vars["self"]), rz(env.vars["angleOrOrientation"]), co(env.vars["offset"])
